@@ -66,6 +66,11 @@ def cases(rng, tier, Case):
                 res.append(Case("enc %d %d %s %s" % (keep, base, hx(safe), hx(src)), "fixed",
                                 {"keep": keep, "base": base, "safe": hx(safe), "src": hx(src)}))
         res.append(Case("norm %s" % hx(src), "norm", {"keep": 1, "base": 1, "safe": hx(DEFAULT_SAFE), "src": hx(src)}))
+    # destinations behind a scheme / media-type prefix: normalize_link treats no prefix specially (seed C17-8)
+    for pre in (b"data:image/png;base64,", b"data:image/jpeg;", b"DATA:image/gif;x,", b"data:image/webp;", b"data:text/html,", b"http://x.y/", b"mailto:", b"javascript:", b"//", b"#"):
+        for tail in [b"iVBOR w0KGgo=", b"50%", "é b%zz".encode(), b"%41%", b"a b\tc", b"\x00\x7f", "\u00a0%2".encode()] + [gen_src(rng) for _ in range(6 if tier == "quick" else 60)]:
+            src = pre + tail
+            res.append(Case("norm %s" % hx(src), "norm", {"keep": 1, "base": 1, "safe": hx(DEFAULT_SAFE), "src": hx(src)}))
     for _ in range(n):
         src = gen_src(rng)
         keep = rng.choice([0, 1, 1])
